@@ -6,6 +6,7 @@ package main
 import (
 	"fmt"
 	"go/types"
+	"regexp"
 	"sort"
 	"strings"
 )
@@ -62,8 +63,15 @@ func init() {
 
 func qualifier(p *types.Package) string { return p.Name() }
 
+var byteRe = regexp.MustCompile(`\bbyte\b`)
+var runeRe = regexp.MustCompile(`\brune\b`)
+var anyRe = regexp.MustCompile(`\bany\b`)
+
 func typeKey(t types.Type) string {
 	s := types.TypeString(t, qualifier)
+	s = byteRe.ReplaceAllString(s, "uint8")
+	s = runeRe.ReplaceAllString(s, "int32")
+	s = anyRe.ReplaceAllString(s, "interface{}")
 	if k, ok := typeKeyTab[s]; ok {
 		return k
 	}
